@@ -117,6 +117,10 @@ type InjectCase struct {
 	DelayMs int `json:",omitempty"`
 	// EmptyName: the start position names no file (= the master's first file)
 	EmptyName bool `json:",omitempty"`
+	// Twin > 0: a second malformed packet - shorter than an event header (Twin-1: empty, 1, 10 or 16 bytes) -
+	// follows the first one directly, so that it is what the replica holds (unchecked so far) while the
+	// stream is torn down for the first; nothing may touch it
+	Twin int `json:",omitempty"`
 }
 
 func checkInject(c *InjectCase) error {
@@ -151,12 +155,30 @@ func checkInject(c *InjectCase) error {
 		}}
 		at.pacing = PaceFarAhead
 	}
+	if c.Twin > 0 {
+		inner := at.mutate
+		at.mutate = func(steps []fakemaster.Step, evIdx []int) []fakemaster.Step {
+			out := inner(steps, evIdx)
+			for i := range out {
+				if out[i].Tag == -9 {
+					short := bytes.Repeat([]byte{0x21}, []int{0, 1, 10, 16}[(c.Twin-1)%4])
+					twin := fakemaster.Step{Payload: fakemaster.EventPacket(short), Tag: -10}
+					out = append(out[:i+1], append([]fakemaster.Step{twin}, out[i+1:]...)...)
+					break
+				}
+			}
+			return out
+		}
+	}
 	if c.Quiet {
 		inner := at.mutate
 		at.mutate = func(steps []fakemaster.Step, evIdx []int) []fakemaster.Step {
 			out := inner(steps, evIdx)
 			for i := range out {
 				if out[i].Tag == -9 {
+					if c.Twin > 0 {
+						i++
+					}
 					out = out[:i+1]
 					out[i].Then = fakemaster.Hold
 					break
@@ -358,10 +380,17 @@ func TestC17(t *testing.T) {
 			quiet := rapid.IntRange(0, 3).Draw(rt, "quiet_after") == 0
 			ownID := rapid.IntRange(0, 3).Draw(rt, "replica_id_is_event_id") == 0
 			emptyName := rapid.IntRange(0, 5).Draw(rt, "empty_start_name") == 0
+			twin := 0
+			if rapid.IntRange(0, 2).Draw(rt, "second_short_packet_behind") == 0 {
+				twin = rapid.IntRange(1, 4).Draw(rt, "second_packet_len_class")
+			}
 			for at := 0; at <= len(payloads); at++ {
-				c := &InjectCase{H: h, At: at, Sub: sub + at, Pacing: pacing, Quiet: quiet, OwnID: ownID, EmptyName: emptyName}
+				c := &InjectCase{H: h, At: at, Sub: sub + at, Pacing: pacing, Quiet: quiet, OwnID: ownID, EmptyName: emptyName, Twin: twin}
 				journal("C17", "c17inject", c)
 				rec.Case(true, c, "inject", fmt.Sprintf("inject/class%d", c.Sub%8), fmt.Sprintf("inject/pacing=%d", pacing))
+				if twin > 0 {
+					rec.Class("inject/second-short-packet-directly-behind")
+				}
 				if at == len(payloads)/2 {
 					rec.Sample(c)
 				}
